@@ -247,6 +247,7 @@ def run(res: Results, idx: Index, tier: str) -> None:
     rule_f(res, idx)
     rule_g(res, idx, tier)
     rule_i(res, idx)
+    rule_j(res, idx)
     # R-C06g: results inside loop bodies keep the shape JAX computed (no loop-context axis-0 override)
     from .c08 import rule_i as _aval_shape_rule
     _aval_shape_rule(res, idx, "R-C06g")
@@ -503,3 +504,60 @@ def rule_i(res: Results, idx: Index) -> None:
                     res.violation("R-C06i", site, key, f"`{src(conv[0], 40)}` is applied whenever `{src(test, 60)}`; a Python bool is an int, so a boolean value among the user's values becomes an integer "
                                   "(the exported carry / result is INT32 where JAX has bool)", fi.qualname)
     res.analysed["int_canonicalisation_sites"] = n
+
+
+# ---------------------------------------------------------------------------------------------- R-C06j
+def rule_j(res: Results, idx: Index) -> None:
+    """A branch or body function may return the same value at two positions (`return z, z`) or return one of its inputs.
+    ONNX Runtime reads garbage for one copy when a subgraph lists one value twice among its outputs, so every output
+    position needs a value of its own.  The loop plugins route every body output through a fresh clone / Identity; a builder
+    that takes the values as they come and only protects against names in a guard set must add each emitted output's name to
+    that set (otherwise `lax.cond(p, lambda y: (z, z), …)` exports a branch with a duplicated output)."""
+    res.rule("R-C06j", "every position of a subgraph's output list gets a value of its own (fresh clone / Identity, or a duplicate guard that also covers earlier outputs)", floor=1)
+    n = 0
+    for m in idx.product_modules():
+        if "/plugins/jax/lax/" not in m.rel:
+            continue
+        for fi in m.funcs.values():
+            du = None
+            for st in walk_no_nested(fi.node):
+                if not (isinstance(st, ast.Assign) and len(st.targets) == 1 and isinstance(st.targets[0], ast.Attribute) and st.targets[0].attr == "outputs" and "builder" in src(st.targets[0].value, 40)
+                        and isinstance(st.value, ast.Name)):
+                    continue
+                L = st.value.id
+                loops = [lp for lp in walk_no_nested(fi.node) if isinstance(lp, ast.For) and any(isinstance(c, ast.Call) and isinstance(c.func, ast.Attribute) and c.func.attr == "append"
+                         and isinstance(c.func.value, ast.Name) and c.func.value.id == L for c in ast.walk(lp))]
+                if not loops:
+                    continue
+                lp = loops[0]
+                n += 1
+                key = f"{m.rel}::{fi.qualname}::subgraph-outputs::{L}"
+                site = f"{m.rel}:{lp.lineno}"
+                app = next(c for c in ast.walk(lp) if isinstance(c, ast.Call) and isinstance(c.func, ast.Attribute) and c.func.attr == "append" and isinstance(c.func.value, ast.Name) and c.func.value.id == L)
+                v = app.args[0] if app.args else None
+                if not isinstance(v, ast.Name):
+                    res.unresolved("R-C06j", site, key, "appended value is not a plain name", fi.qualname)
+                    continue
+                defs = [d for d in walk_no_nested(lp) if isinstance(d, ast.Assign) and len(d.targets) == 1 and isinstance(d.targets[0], ast.Name) and d.targets[0].id == v.id]
+                fresh = lambda e: isinstance(e, ast.Call) and ((isinstance(e.func, ast.Attribute) and e.func.attr == "Identity") or "clone" in (call_name(e) or "").lower())
+                uncond = [d for d in defs if getattr(d, "parent", None) is lp]
+                if uncond and all(fresh(d.value) or any(fresh(x) for x in ast.walk(d.value)) for d in uncond[-1:]):
+                    res.ok("R-C06j", site, key, "every output is a fresh clone / Identity of the body value", fi.qualname)
+                    continue
+                guards = [g for g in ast.walk(lp) if isinstance(g, ast.If) and any(fresh(d.value) for d in ast.walk(g) if isinstance(d, ast.Assign)) and any(isinstance(c, ast.Compare) and isinstance(c.ops[0], ast.In) for c in ast.walk(g.test))]
+                if not guards:
+                    replaced = any(isinstance(x, ast.Assign) and isinstance(x.targets[0], ast.Subscript) and isinstance(x.targets[0].value, ast.Name) and x.targets[0].value.id == L for x in walk_no_nested(fi.node))
+                    if replaced:
+                        res.unresolved("R-C06j", site, key, f"`{L}` is filled with the body values as they come and entries are replaced later (`{L}[i] = …`, forced casts): whether every position ends up with a value of its own is not decided", fi.qualname)
+                    else:
+                        res.violation("R-C06j", site, key, f"the values of the branch / body results are appended to `{L}` as they are: a result returned twice, or a returned input, puts one value at two output positions", fi.qualname)
+                    continue
+                g = guards[0]
+                sets = {c.comparators[0].id for c in ast.walk(g.test) if isinstance(c, ast.Compare) and isinstance(c.ops[0], ast.In) and isinstance(c.comparators[0], ast.Name)}
+                grows = any(isinstance(c, ast.Call) and isinstance(c.func, ast.Attribute) and c.func.attr in ("add", "update") and isinstance(c.func.value, ast.Name) and c.func.value.id in sets for c in ast.walk(lp))
+                if grows:
+                    res.ok("R-C06j", site, key, f"duplicate guard `{src(g.test, 50)}` and the guard set grows with every emitted output", fi.qualname)
+                else:
+                    res.violation("R-C06j", f"{m.rel}:{g.lineno}", key, f"outputs are protected by `{src(g.test, 50)}` only, and `{sorted(sets)[0] if sets else '?'}` never learns the names already emitted: a branch that returns one value twice "
+                                  "(`return z, z`) lists it twice among the subgraph outputs — ONNX Runtime loads the model and returns garbage for one copy", fi.qualname)
+    res.analysed["subgraph_output_builders"] = n
